@@ -480,6 +480,19 @@ func Run(p *Prop, env *Env) int {
 			exit = 1
 		}
 	}
+	// every other open finding listed for this property is printed too (the known-findings file is the record; the
+	// evidence distinguishes what this run observed from what is only listed)
+	for _, k := range known {
+		if k.Property != p.ID || k.Status != "open" {
+			continue
+		}
+		if _, seen := kfSeen[k.ID]; seen {
+			continue
+		}
+		line := fmt.Sprintf("KNOWN-FINDING: property=%s %s %s (listed; its witness was not exercised in this run)", p.ID, k.ID, k.What)
+		fmt.Println(line)
+		res.KnownFindings = append(res.KnownFindings, line)
+	}
 	// A divergence is reported only if it reproduces when the same case is run again on both sides: the
 	// correspondence runs are deterministic by construction (hook-scheduled, seeded), so a divergence that
 	// does not come back is noise of the harness' own scheduling under load; it is counted in the evidence.
